@@ -349,40 +349,96 @@ Proof.
   apply tfin_then_ret, lob_end_fin.
 Qed.
 
+(* ---- the push-back buffer after a look-ahead ------------------------------------------------------------------------ *)
+Lemma read_buf t c b : t_buf t = c :: b -> t_read t = Ok (c, set_buf t b).
+Proof. intros H; unfold t_read; rewrite H; reflexivity. Qed.
+Lemma peek_buf t c b : t_buf t = c :: b -> t_peek t = Ok (c, t).
+Proof. intros H; unfold t_peek; rewrite H; reflexivity. Qed.
+Lemma unread_all_buf : forall l t, exists t', unread_all l t = Ok (tt, t') /\ t_buf t' = rev l ++ t_buf t.
+Proof.
+  induction l as [|c l IH]; intros t; cbn [unread_all].
+  - exists t; split; reflexivity.
+  - unfold mbind, t_unread. destruct (IH (set_buf t (c :: t_buf t))) as [t' [E B]].
+    exists t'; split; [exact E|]. rewrite B. cbn. rewrite <- app_assoc. reflexivity.
+Qed.
+Lemma peekN_loop_len : forall n acc t cs eof t1,
+  peekN_loop n acc t = Ok ((cs, eof), t1) ->
+  (eof = false -> length cs = length acc + n)%nat /\ (length acc <= length cs)%nat.
+Proof.
+  induction n as [|n IH]; intros acc t cs eof t1; cbn [peekN_loop].
+  - unfold ret. intros E; injection E as <- <- _. rewrite rev_length. split; lia.
+  - unfold mbind. destruct (t_read t) as [[c t0]| | |]; try discriminate.
+    destruct (c =? -1).
+    + unfold ret. intros E; injection E as <- <- _. rewrite rev_length. split; [discriminate|lia].
+    + intros E. apply IH in E. cbn [length] in E. split; [intros H; destruct E as [E _]; specialize (E H)|]; lia.
+Qed.
+(* after peekN the characters it saw (and the EOF mark) are in the buffer *)
+Lemma peekN_buf n t cs eof t' :
+  t_peekN n t = Ok ((cs, eof), t') ->
+  (length cs + (if eof then 1 else 0) <= length (t_buf t'))%nat /\ (eof = false -> length cs = n).
+Proof.
+  unfold t_peekN, mbind.
+  destruct (peekN_loop n [] t) as [[[cs0 e0] t1]| | |] eqn:E1; try discriminate.
+  apply peekN_loop_len in E1. cbn [length] in E1.
+  set (t2 := if e0 then set_buf t1 (-1 :: t_buf t1) else t1).
+  assert (E2 : (if e0 then t_unread (-1) else ret tt) t1 = Ok (tt, t2)) by (destruct e0; reflexivity).
+  rewrite E2. destruct (unread_all_buf (rev cs0) t2) as [t3 [E3 B3]]. rewrite E3. unfold ret.
+  intros E; injection E as <- <- <-. rewrite B3, rev_involutive, app_length.
+  split; [|intros H; destruct E1 as [E1 _]; rewrite (E1 H); lia].
+  subst t2. destruct e0; cbn; lia.
+Qed.
+
 (* ---- Next ------------------------------------------------------------------------------------------------------------ *)
-(* after Next the unfinished flag is a function of the token *)
+(* after Next the unfinished flag is a function of the token, and a 0b / 0x token has its first three
+   (with a sign: four) characters in the push-back buffer, so that readRadix's look-ahead cannot fail *)
 Definition unf_of (k : N) : bool := skb k || (k =? tokenEOF)%N.
+Definition is_radix (k : N) : bool := ((k =? tokenBinary) || (k =? tokenHex))%N.
+Definition radix_ready (t : tstate) : Prop :=
+  (3 <= length (t_buf t))%nat /\ (hd 0 (t_buf t) = c_minus -> (4 <= length (t_buf t))%nat).
+Definition tokpost (t : tstate) : Prop :=
+  t_unfinished t = unf_of (t_token t) /\ (is_radix (t_token t) = true -> radix_ready t).
 Definition tok_sets {A} (m : M A) : Prop :=
   forall t, match m t with
-            | Ok (_, t') => t_unfinished t' = unf_of (t_token t')
+            | Ok (_, t') => tokpost t'
             | Panic => False
             | _ => True
             end.
-Definition yields {A} (m : M A) (P : A -> Prop) : Prop :=
-  forall t, match m t with Ok (a, _) => P a | Panic => False | _ => True end.
-Lemma yields_frame {A} (m : M A) : tframe m -> yields m (fun _ => True).
+Definition yields {A} (m : M A) (P : A -> tstate -> Prop) : Prop :=
+  forall t, match m t with Ok (a, t') => P a t' | Panic => False | _ => True end.
+Lemma yields_frame {A} (m : M A) : tframe m -> yields m (fun _ _ => True).
 Proof. intros H t; specialize (H t); destruct (m t) as [[a t1]| | |]; auto. Qed.
-Lemma tok_sets_bind {A B} (m : M A) (f : A -> M B) (P : A -> Prop) :
-  yields m P -> (forall a, P a -> tok_sets (f a)) -> tok_sets (mbind m f).
+Lemma tok_sets_bind {A B} (m : M A) (f : A -> M B) (P : A -> tstate -> Prop) :
+  yields m P ->
+  (forall a t1, P a t1 -> match f a t1 with Ok (_, t') => tokpost t' | Panic => False | _ => True end) ->
+  tok_sets (mbind m f).
 Proof.
   intros Hm Hf t; unfold mbind; specialize (Hm t). destruct (m t) as [[a t1]| | |]; try assumption.
   apply Hf; assumption.
 Qed.
 Lemma tok_sets_seq {A B} (m : M A) (f : A -> M B) : tframe m -> (forall a, tok_sets (f a)) -> tok_sets (mbind m f).
-Proof. intros Hm Hf; eapply tok_sets_bind; [apply yields_frame, Hm|intros a _; apply Hf]. Qed.
-Lemma tok_sets_ok k b : b = unf_of k -> tok_sets (t_ok k b).
-Proof. intros -> t; reflexivity. Qed.
+Proof. intros Hm Hf; eapply tok_sets_bind; [apply yields_frame, Hm|intros a t1 _; apply Hf]. Qed.
+Lemma tok_sets_ok k b : b = unf_of k -> is_radix k = false -> tok_sets (t_ok k b).
+Proof. intros -> R t; split; [reflexivity|cbn; rewrite R; discriminate]. Qed.
 Lemma tok_sets_fail {A} : tok_sets (@fail A).
 Proof. intro t; exact I. Qed.
 
 Definition numeric_token (k : N) : Prop :=
   k = tokenBinary \/ k = tokenHex \/ k = tokenTimestamp \/ k = tokenNumber.
-Lemma scan_numeric_yields c : is_digit c = true -> yields (t_scan_numeric c) numeric_token.
+(* scanForNumericType on a digit: a numeric token, and for 0b / 0x at least the marker and one more
+   entry (a character or the EOF mark) in the buffer *)
+Lemma scan_numeric_yields c : is_digit c = true ->
+  yields (t_scan_numeric c) (fun k t' => numeric_token k /\ (is_radix k = true -> (2 <= length (t_buf t'))%nat)).
 Proof.
   intros D t. unfold t_scan_numeric. rewrite D. cbn [negb].
-  unfold mbind. pose proof (tframe_peekN 4 t) as H. destruct (t_peekN 4 t) as [[[cs e] t1]| | |]; try assumption.
+  unfold mbind. pose proof (tframe_peekN 4 t) as H.
+  destruct (t_peekN 4 t) as [[[cs e] t1]| | |] eqn:E; try assumption.
+  apply peekN_buf in E. destruct E as [L1 L2].
   unfold numeric_token, ret.
-  repeat match goal with |- match (if ?b then _ else _) _ with _ => _ end => destruct b end; auto.
+  repeat match goal with |- match (if ?b then _ else _) _ with _ => _ end => destruct b eqn:? end;
+    (split; [auto|]); try (cbn; discriminate); intros _.
+  all: repeat match goal with H : (_ && _)%bool = true |- _ => apply andb_prop in H; destruct H end.
+  all: match goal with H : (0 <? _)%nat = true |- _ => apply Nat.ltb_lt in H end.
+  all: destruct e; [lia|specialize (L2 eq_refl); lia].
 Qed.
 
 Ltac ts :=
@@ -395,10 +451,13 @@ Ltac ts :=
       | |- tok_sets (if ?b then _ else _) => destruct b eqn:?
       end ].
 
+Lemma digit_not_minus c : is_digit c = true -> c <> c_minus.
+Proof. intros D ->. discriminate. Qed.
+
 Lemma next_spec t :
   (t_unfinished t = true -> skb (t_token t) = true) ->
   match t_next t with
-  | Ok (_, t') => t_unfinished t' = unf_of (t_token t')
+  | Ok (_, t') => tokpost t'
   | Panic => False
   | _ => True
   end.
@@ -418,11 +477,105 @@ Proof.
   ts.
   - (* '-' followed by a digit *)
     eapply tok_sets_bind; [apply scan_numeric_yields; assumption|].
-    intros k Hk. destruct (k =? tokenTimestamp)%N; [apply tok_sets_fail|].
-    ts. destruct Hk as [ -> | [ -> | [ -> | -> ] ] ]; apply tok_sets_ok; reflexivity.
+    intros k t2 [Hk Hb]. destruct (k =? tokenTimestamp)%N eqn:KT; [exact I|].
+    unfold mbind, t_unread, t_ok. cbn. split.
+    + destruct Hk as [ -> | [ -> | [ -> | -> ] ] ]; reflexivity.
+    + intros R. specialize (Hb R). split; cbn; [lia|intros _; lia].
   - (* a digit *)
     eapply tok_sets_bind; [apply scan_numeric_yields; assumption|].
-    intros k Hk. ts. destruct Hk as [ -> | [ -> | [ -> | -> ] ] ]; apply tok_sets_ok; reflexivity.
+    intros k t2 [Hk Hb]. unfold mbind, t_unread, t_ok. cbn. split.
+    + destruct Hk as [ -> | [ -> | [ -> | -> ] ] ]; reflexivity.
+    + intros R. specialize (Hb R). split; cbn; [lia|].
+      intros Hc. exfalso. eapply digit_not_minus; eassumption.
+Qed.
+
+(* ---- readRadix: with the look-ahead in the buffer it yields (-)0b... / (-)0x..., on which parseInt cannot panic ---- *)
+Definition radix_shape (v : list N) : Prop :=
+  match v with
+  | a :: _ :: r => if (a =? 45)%N then r <> [] else True
+  | _ => False
+  end.
+Lemma radix_digits_suffix : forall fuel valid w t c w' t',
+  read_radix_digits fuel valid w t = Ok ((c, w'), t') -> exists d, w' = d ++ w.
+Proof.
+  induction fuel as [|f IH]; intros valid w t c w' t'; cbn [read_radix_digits]; [discriminate|].
+  unfold mbind. destruct (t_read t) as [[c0 t0]| | |]; try discriminate.
+  destruct (c0 =? c_under).
+  - destruct (t_peek t0) as [[nx t1]| | |]; try discriminate. destruct (negb (valid nx)); [discriminate|]. apply IH.
+  - destruct (negb (valid c0)).
+    + unfold ret. intros E; injection E as _ <- _. exists []; reflexivity.
+    + intros E. apply IH in E. destruct E as [d ->]. exists (d ++ [byte_of c0]). rewrite <- app_assoc. reflexivity.
+Qed.
+Lemma radix_tail valid w t :
+  match (tdo '(c, w') <- with_fuel (fun f => read_radix_digits f valid w);
+         tdo ok <- t_is_stop_char c;
+         if negb ok then fail else tdo _ <- t_unread c; ret (rev w')) t with
+  | Ok (v, _) => exists d, v = rev (d ++ w)
+  | _ => True
+  end.
+Proof.
+  unfold mbind at 1, with_fuel.
+  destruct (read_radix_digits (t_fuel t) valid w t) as [[[c w'] t1]| | |] eqn:E; try exact I.
+  apply radix_digits_suffix in E. destruct E as [d ->].
+  unfold mbind. destruct (t_is_stop_char c t1) as [[ok t2]| | |]; try exact I.
+  destruct (negb ok); [exact I|]. cbn. exists d; reflexivity.
+Qed.
+
+Lemma read_radix_shape mk valid t : radix_ready t ->
+  match read_radix mk valid t with Ok (v, _) => radix_shape v | _ => True end.
+Proof.
+  intros [L3 L4]. unfold read_radix.
+  destruct (t_buf t) as [|c0 [|c1 [|c2 b]]] eqn:B; cbn [length] in L3; try lia.
+  unfold mbind at 1. rewrite (read_buf _ _ _ B).
+  destruct (c0 =? c_minus) eqn:M.
+  - apply Z.eqb_eq in M. cbn [hd] in L4. specialize (L4 M). destruct b as [|c3 b]; [cbn in L4; lia|].
+    unfold mbind at 1. unfold mbind at 1.
+    erewrite read_buf by reflexivity. unfold ret.
+    destruct (negb (c1 =? c_0)); [exact I|].
+    unfold mbind at 1. erewrite read_buf by reflexivity.
+    destruct (negb (mk c2)); [exact I|]. cbn beta.
+    erewrite peek_buf by reflexivity.
+    destruct (c3 =? c_under); [exact I|].
+    match goal with |- match ?k ?st with _ => _ end =>
+      assert (H : match k st with Ok (v, _) => exists d, v = rev (d ++ [byte_of c2; 48%N; 45%N]) | _ => True end)
+        by exact (radix_tail valid [byte_of c2; 48%N; 45%N] st);
+      destruct (k st) as [[v t']| | |] end; try exact I.
+    destruct H as [d ->]. rewrite rev_app_distr. cbn. discriminate.
+  - unfold ret. unfold mbind at 1.
+    destruct (negb (c0 =? c_0)) eqn:Z0; [exact I|].
+    unfold mbind at 1. erewrite read_buf by reflexivity.
+    destruct (negb (mk c1)); [exact I|]. cbn beta.
+    erewrite peek_buf by reflexivity.
+    destruct (c2 =? c_under); [exact I|].
+    match goal with |- match ?k ?st with _ => _ end =>
+      assert (H : match k st with Ok (v, _) => exists d, v = rev (d ++ [byte_of c1; 48%N]) | _ => True end)
+        by exact (radix_tail valid [byte_of c1; 48%N] st);
+      destruct (k st) as [[v t']| | |] end; try exact I.
+    destruct H as [d ->]. rewrite rev_app_distr. cbn. exact I.
+Qed.
+Lemma read_value_radix k t : is_radix k = true -> radix_ready t ->
+  match t_read_value k t with Ok (v, _) => radix_shape v | _ => True end.
+Proof.
+  intros R Hr. unfold is_radix in R. unfold t_read_value, mbind.
+  destruct (k =? tokenBinary)%N eqn:KB.
+  - apply N.eqb_eq in KB; subst k. cbn [N.eqb tokenBinary tokenSymbol tokenSymbolQuoted tokenSymbolOperator tokenDot tokenString tokenLongString Pos.eqb orb].
+    pose proof (read_radix_shape is_b is_bin_digit t Hr) as H. unfold read_binary.
+    destruct (read_radix is_b is_bin_digit t) as [[v t']| | |]; try exact I. exact H.
+  - cbn [orb] in R. apply N.eqb_eq in R; subst k. cbn [N.eqb tokenHex tokenBinary tokenSymbol tokenSymbolQuoted tokenSymbolOperator tokenDot tokenString tokenLongString Pos.eqb orb].
+    pose proof (read_radix_shape is_x is_hex_digit t Hr) as H. unfold read_hex.
+    destruct (read_radix is_x is_hex_digit t) as [[v t']| | |]; try exact I. exact H.
+Qed.
+
+(* FinishValue *)
+Lemma finish_value_fin t : (t_unfinished t = true -> skb (t_token t) = true) -> tfin t_finish_value t.
+Proof.
+  intros Hpre. unfold t_finish_value, t_finish_value_with.
+  apply tfin_bind. unfold get. split; [apply same_refl|]. cbn beta.
+  destruct (t_unfinished t) eqn:U; cbn [negb].
+  - unfold tfin. pose proof (skip_value_fin t (Hpre eq_refl)) as H. unfold tfin in H.
+    unfold mbind. destruct (t_skip_value t) as [[c t1]| | |]; try exact H. cbn.
+    destruct H as [H1 [_ H3]]. repeat split; assumption.
+  - unfold tfin, ret. repeat split. exact U.
 Qed.
 
 (* ---- the bare tokenizer driven by its protocol never panics -------------------------------------------------------- *)
@@ -454,7 +607,7 @@ Proof.
     assert (Hpre : t_unfinished t = true -> skb (t_token t) = true).
     { intros U. destruct (Hi U) as [S|E]; [exact S|]. rewrite U, E in B. discriminate. }
     pose proof (next_spec t Hpre) as H. destruct (t_next t) as [[u t1]| | |]; cbn [drop]; auto.
-    intros U. rewrite H in U. unfold unf_of in U. apply orb_true_iff in U as [S|E]; [left; exact S|right].
+    destruct H as [H _]. intros U. rewrite H in U. unfold unf_of in U. apply orb_true_iff in U as [S|E]; [left; exact S|right].
     apply N.eqb_eq in E; exact E.
   - destruct (rvb (t_token t)) eqn:R.
     + pose proof (read_value_fin (t_token t) t R) as H. unfold tfin in H.
